@@ -336,17 +336,17 @@ pub fn run(ctx: &mut Ctx) -> Vec<Violation> {
     out.extend(v);
     // random long histories
     let hist = (1u8..=3, prop_oneof![3 => vec_of(op_strategy(false).boxed(), 0usize..=60), 1 => vec_of(op_strategy(false).boxed(), 1_000usize..=10_000)]).prop_map(|(limit, ops)| History { limit, ops });
-    out.extend(run_prop(ctx, "random-histories", t.pick(3_000, 100_000), 500, hist, |ctx, h| check_history(ctx, h)));
+    out.extend(run_prop(ctx, "random-histories", t.pick(20_000, 200_000), 500, hist, |ctx, h| check_history(ctx, h)));
     // splits across workers with snapshot points
     let split = (1u8..=4, vec_of((0u8..4, op_strategy(false), prop::bool::weighted(0.15)).boxed(), 0usize..=80)).prop_map(|(workers, events)| SplitCase { workers, events });
-    out.extend(run_prop(ctx, "worker-splits", t.pick(800, 16_000), 300, split, |ctx, c| {
+    out.extend(run_prop(ctx, "worker-splits", t.pick(4_000, 40_000), 300, split, |ctx, c| {
         ctx.sample("worker-splits", 1, c);
         check_split(ctx, c)
     }));
     // traffic served by an in-process server
     let step = vec_of((0u8..16, prop_oneof![3 => std_req().prop_map(Dgram::Std), 2 => any_dgram()]).prop_map(|(sock, d)| Send { sock, d }).boxed(), 0usize..=40);
     let traffic = (seed32(), prop::sample::select(vec![1u8, 3, 16, 64]), prop::bool::weighted(0.15), proptest::collection::vec(step, 1..=3)).prop_map(|(seed, batch_size, stats, steps)| TrafficCase { seed, batch_size, stats, steps });
-    out.extend(run_prop(ctx, "traffic", t.pick(1_600, 32_000), 200, traffic, |ctx, c| {
+    out.extend(run_prop(ctx, "traffic", t.pick(8_000, 64_000), 200, traffic, |ctx, c| {
         ctx.sample("traffic", 1, &(c.stats, c.batch_size, c.steps.iter().map(|s| s.len()).collect::<Vec<_>>()));
         check_traffic(ctx, c)
     }));
